@@ -25,6 +25,7 @@ pub fn show(h: &[Ev]) -> String {
         .map(|e| match e {
             Ev::P(d, v) => format!("P(+{}ns,{:?})", d, v),
             Ev::N(_) => "N".to_string(),
+            Ev::Er(_, 0) => "FromNone".to_string(),
             Ev::Er(_, c) => format!("E{}", c),
         })
         .collect::<Vec<_>>()
@@ -90,7 +91,7 @@ pub fn run_real(kind: usize, h: &[Ev], t0: i64, unit: Unit) -> Vec<(u32, Obs)> {
         s.feed(match e {
             Ev::P(_, v) => Ok(Some(Datum::new(Time(t), Quantity::new(*v, unit)))),
             Ev::N(_) => Ok(None),
-            Ev::Er(_, c) => Err(Error::Other(*c)),
+            Ev::Er(_, c) => Err(err_val(*c)),
         });
         let u = s.update();
         out.push((u, s.get()));
@@ -289,7 +290,7 @@ pub fn check_history(kind: usize, h: &[Ev], unit: Unit, e: &mut Eng, meta: bool)
             }
             Ev::Er(_, c) => {
                 r.reset();
-                if u != 2 + *c as u32 {
+                if u != obs_unit(&Err(err_val(*c))) {
                     e.violation(&format!("calc:{}:update-result", name), k + 1, || format!("history [{}]: update() did not return the input's error", show(&h[..=k])));
                     break;
                 }
@@ -331,6 +332,7 @@ pub fn exact_syms() -> Vec<Ev> {
     }
     v.push(Ev::N(S));
     v.push(Ev::Er(S, 1));
+    v.push(Ev::Er(S, 0)); // the crate's own Error::FromNone
     v
 }
 pub fn broad_syms() -> Vec<Ev> {
@@ -399,8 +401,8 @@ pub fn run(ctx: &Ctx) -> Vec<Eng> {
     let syms = exact_syms();
     let mut e1 = Eng::new(
         "c10-seqs-exact",
-        "all histories of exactly `depth` events over {P(dt,v): dt in {0.25,0.5,1,2}s, v in {0,1,-2,3}} + {N,E1} for integral, derivative, acceleration-, velocity-, position-to-state; after every present sample get() must equal the reference (trapezoid sums / backward differences applied once or twice, absent until 2 resp. 3 samples, newest sample's time, unit input*s or input/s), bit-exact where certified; timestamps shifted by -1e15, +11, +1e17 ns must give bit-identical values; non-trivial = at least three samples since the last reset",
-        &format!("depth {} => 18^{} histories x 5 streams", depth, depth),
+        "all histories of exactly `depth` events over {P(dt,v): dt in {0.25,0.5,1,2}s, v in {0,1,-2,3}} + {N, E1 = Other(1), FromNone} for integral, derivative, acceleration-, velocity-, position-to-state; after every present sample get() must equal the reference (trapezoid sums / backward differences applied once or twice, absent until 2 resp. 3 samples, newest sample's time, unit input*s or input/s), bit-exact where certified; timestamps shifted by -1e15, +11, +1e17 ns must give bit-identical values; non-trivial = at least three samples since the last reset",
+        &format!("depth {} => {}^{} histories x 5 streams", depth, syms.len(), depth),
     );
     for kind in 0..5 {
         par_seqs(&mut e1, syms.len(), depth, budget, |seq, e| {
